@@ -628,8 +628,9 @@ def judge_req(sim, ev, rec):
         return
     # the type the receiving endpoint expects (a request delivered to another service's endpoint
     # must not be handed over as that service's request type)
+    from engines.fedsim import PREFIX_KIND
     service = rec["via"].split("_")[0] + "_"
-    want = {"sso_": "AuthnRequest", "slo_": "LogoutRequest", "aa_": "AttributeQuery"}[service]
+    want = PREFIX_KIND[service][1]
     if m["ns"] != wire.SAMLP or m["type"] != want:
         if handed:
             add(sim, rec, "C10", "wrong-type-handed", "%s at %s" % (m["type"], rec["via"]))
